@@ -168,6 +168,54 @@ def r_read_auto(repo, rep, R='R8.5'):
               'the line is rewritten as a whole before it is read: %s -- fields that only contain the pattern are changed too' % sorted(set(bad))[:2])
 
 
+COUNT_REJECT_EXAMPLE = """
+class Reader(object):
+    def parse(self):
+        if self.line.count('(') != self.line.count(')'):
+            raise RuntimeError('failed to parse: ' + self.line)
+        return self.next_node()
+"""
+
+
+def count_rejections(tree):
+    """a line refused (raise / continue / return without a value) under a test that counts its brackets: the words of an AUTO line
+    are written as they are -- `1)`, `:-)`, `(see` -- so the numbers of `(`, `)`, `<`, `>` in a line the printer wrote say nothing
+    about whether it is complete.  -> [(if node, text of the counting call)]"""
+    out = []
+    for n in ast.walk(tree):
+        if not isinstance(n, ast.If):
+            continue
+        counts = [c for c in ast.walk(n.test) if isinstance(c, ast.Call) and isinstance(c.func, ast.Attribute) and c.func.attr == 'count'
+                  and len(c.args) == 1 and isinstance(c.args[0], ast.Constant) and c.args[0].value in ('(', ')', '<', '>', '{', '}')]
+        if not counts:
+            continue
+        for branch in (n.body, n.orelse):
+            if any(isinstance(x, (ast.Raise, ast.Continue)) or (isinstance(x, ast.Return) and (x.value is None or (isinstance(x.value, ast.Constant) and x.value.value is None)))
+                   for st in branch for x in ast.walk(st)):
+                out.append((n, src(counts[0])))
+                break
+    return out
+
+
+def r_no_count_rejection(repo, rep, R='R8.5'):
+    from ..core import attach_parents
+    ex = attach_parents(ast.parse(COUNT_REJECT_EXAMPLE))
+    if [h[0].lineno for h in count_rejections(ex)] != [4]:
+        raise AnalysisError('the bracket-count rule does not match its positive example')
+    rm = repo.module(RD)
+    tree = ast.parse(repo.text(RD))
+    targets = [n for n in tree.body if (isinstance(n, ast.ClassDef) and 'auto' in n.name.lower()) or (isinstance(n, ast.FunctionDef) and 'auto' in n.name.lower())]
+    if not targets:
+        raise AnalysisError('%s: the AUTO reader was not found' % RD)
+    hits = [h for t in targets for h in count_rejections(t)]
+    for node, txt in hits:
+        rep.violation(R, '%s:%s' % (RD, node.lineno), 'read_auto:count-rejection',
+                      'the AUTO reader refuses a line when `%s` (line %s): words are written verbatim and may contain brackets (`1)`, `:-)`), so a '
+                      'line the printer wrote for such a sentence is not read back' % (src(node.test)[:80], node.lineno))
+    if not hits:
+        rep.ok(R, '%s' % RD, 'no line of an AUTO file is refused by counting its brackets (%d definitions inspected)' % len(targets))
+
+
 def check(repo, rep, tier):
     rep.rule('R8.1', 'leaf record: writer fields vs parse_leaf cursor reads')
     rep.rule('R8.2', 'node record: header fields, child loop, closing bracket')
@@ -203,6 +251,7 @@ def check(repo, rep, tier):
     r_extension_dispatch_text(repo, rep, 'R8.7', 'read_auto')
     from .c20 import r_ptb_lines
     r_ptb_lines(repo, rep, 'R8.5', reader='read_auto', what='AUTO')
+    r_no_count_rejection(repo, rep, 'R8.5')
     from .c12 import r_same_result
     r_same_result(repo, rep, 'R8.3')         # the head flag a node gets is the one read from its own record (not a value kept on the reader between nodes)
     am = repo.module(AUTO)
